@@ -95,6 +95,24 @@ Theorem C01_sleeper_left_by_foreign_signal :
 Proof. exact wake_foreign. Qed.
 Print Assumptions C01_sleeper_left_by_foreign_signal.
 
+(** Waits for [&] / [|] formulas over dates ([time >= d], [time < d], [time == d], nested in any shape): such a formula can
+    only BECOME true at one of the dates it mentions, and it already holds AT the first such date - so the wait, which
+    starts at [t0] with the formula false, cannot end at any time other than a mentioned date later than [t0]; and once all
+    dates are behind it never ends.  (This is what makes the arithmetic oracle for the `time-connectives` family complete:
+    it evaluates the formula at [t0] and at the mentioned dates only.) *)
+From Usim Require TimeFormula.
+Theorem C01_time_formula_turns_true_only_at_its_dates :
+  forall w t0 t, (t0 < t)%Z -> TimeFormula.tholds w t0 = false -> TimeFormula.tholds w t = true ->
+    exists d, In d (TimeFormula.tdates w) /\ (t0 < d <= t)%Z /\ TimeFormula.tholds w d = true.
+Proof. exact TimeFormula.candidates_complete. Qed.
+Print Assumptions C01_time_formula_turns_true_only_at_its_dates.
+
+Theorem C01_time_formula_never_after_its_dates :
+  forall w t0, (forall d, In d (TimeFormula.tdates w) -> (d <= t0)%Z) -> TimeFormula.tholds w t0 = false ->
+    forall t, (t0 < t)%Z -> TimeFormula.tholds w t = false.
+Proof. exact TimeFormula.never_after_all_dates. Qed.
+Print Assumptions C01_time_formula_never_after_its_dates.
+
 (** (A) the tie to /repo's current source: every function this property's models were transcribed from has, in the
     tree this run is checking, the normalised source it had when the models were validated (hashes regenerated from
     /repo into gen/Generated.v on every run; pins in gen/SourcePins.v).  A change to one of them invalidates the
